@@ -118,7 +118,8 @@ RuleOnes(a) == LET big == TooBig(a[1].v) IN R4(FALSE, ~big, FALSE, big)
 \* in_radix / to_string in a radix: "Panics if radix is not between 2 and 36 inclusive"
 RuleRadix(a) == LET ok == InRange(a[2].v, 2, 36) IN R4(~ok, ok, FALSE, FALSE)
 \* to_chunks / from_chunks: "Panics if chunk_bits is zero"
-RuleChunks(a) == R4(IsZ(a[2].v), ~IsZ(a[2].v), FALSE, FALSE)
+\* (a chunk size beyond memory may be refused: "try to allocate too much memory" / "out of memory" helpers)
+RuleChunks(a) == LET k == a[2].v IN R4(IsZ(k), ~IsZ(k) /\ ~TooBig(k), TooBig(k), FALSE)
 \* ConstDivisor::new(0): reduction by zero
 RuleRingNew(a) == R4(IsZ(a[1].v), ~IsZ(a[1].v), FALSE, FALSE)
 \* ring operations: a[1] modulus (> 0), others operands; nothing documented forbids any of them
@@ -128,10 +129,9 @@ RuleRingDiv(a) ==
   LET m == a[1].v  y == a[3].v
       inv == ~IsZ(m) /\ Gcd(Mod(y.m, m.m), m.m) = One
   IN R4(FALSE, inv, ~IsZ(m) /\ ~inv, IsZ(m))
-\* operands of two different rings: helper "Modulo values from different rings" only
+\* operands of two separately constructed rings (even of equal modulus): helper "Modulo values from different rings" only
 RuleRingCross(a) ==
-  LET same == IEq(a[1].v, a[2].v) IN R4(FALSE, same /\ ~IsZ(a[1].v), ~same /\ ~IsZ(a[1].v) /\ ~IsZ(a[2].v),
-                                        IsZ(a[1].v) \/ IsZ(a[2].v))
+  LET z == IsZ(a[1].v) \/ IsZ(a[2].v) IN R4(FALSE, FALSE, ~z, z)
 
 \* ---- floats
 FiniteArgs(a) == \A i \in 1..Len(a) : a[i].k # "F" \/ ~FInf(a[i])
@@ -197,7 +197,8 @@ RuleFRem(a) ==
 RuleFSqrt(a) ==
   LET x == a[1]
       neg == ~FInf(x) /\ FNegF(x) /\ ~FZero(x)
-  IN R4(FInf(x) \/ neg \/ P0(x), ~FInf(x) /\ ~neg /\ ~P0(x), FALSE, FALSE)
+      ok == ~FInf(x) /\ ~neg /\ ~P0(x)
+  IN R4(FInf(x) \/ neg \/ P0(x), ok /\ ~FHugeExp(x), ok /\ FHugeExp(x), FALSE)
 \* exp, exp_m1: irrational for every x # 0; the result exponent is about x / ln B
 RuleFExp(a, m1) ==
   LET x == a[1]
@@ -206,9 +207,10 @@ RuleFExp(a, m1) ==
       big == ~inf /\ FAbsGe(x, IF x.b = 2 THEN 70 ELSE 22)       \* |x| >= 2^70: the result exponent cannot fit
       biggish == ~inf /\ ~big /\ FAbsGe(x, IF x.b = 2 THEN 60 ELSE 17)
       over == big /\ (~m1 \/ ~FNegF(x))                           \* exp_m1(-huge) = -1 + tiny is representable
+      tinyhuge == ~inf /\ ~big /\ FHugeExp(x)                      \* |x| < B^(-2^33): aligning it may be refused
   IN R4(inf \/ (~inf /\ ~zero /\ P0(x)) \/ (~P0(x) /\ over),
-        ~inf /\ ~P0(x) /\ ~big /\ ~biggish,
-        ~inf /\ ((P0(x) /\ zero) \/ (~P0(x) /\ (biggish \/ (big /\ ~over)))),
+        ~inf /\ ~P0(x) /\ ~big /\ ~biggish /\ ~tinyhuge,
+        ~inf /\ ((P0(x) /\ zero) \/ (~P0(x) /\ (biggish \/ tinyhuge \/ (big /\ ~over)))),
         FALSE)
 \* ln (one_plus = FALSE), ln_1p (one_plus = TRUE): "logarithm on zero panics", negative arguments have no logarithm
 RuleFLn(a, onep) ==
@@ -258,12 +260,17 @@ RuleFRound(a, makesInt) ==
   LET x == a[1]
       big == makesInt /\ ~FInf(x) /\ ~FZero(x) /\ TooBig(x.exp)
   IN R4(FInf(x), ~FInf(x) /\ ~big, FALSE, big)
+\* with_precision: rounding an infinity is not decided ("only equality test and comparison are implemented")
+RuleFWithPrec(a) == LET x == a[1] IN R4(FALSE, ~FInf(x), FInf(x), FALSE)
+\* split_at_point has no `# Panics` section of its own (trunc and fract have)
+RuleFSplit(a) == LET x == a[1] IN R4(FALSE, ~FInf(x), FInf(x), FALSE)
 \* ulp: "Panics if the precision of the number is 0 (unlimited)"
 \* (the ulp of an infinity is not decided; the exponent of the result is exp + digits - precision)
 RuleFUlp(a) ==
   LET x == a[1]
       fin == ~P0(x) /\ ~FInf(x) /\ ~FZero(x)
-      ov == IF fin THEN OverRule(ISub(IAdd(x.exp, INat(FDigits(x))), x.prec), TRUE) ELSE "fits"
+      ov == IF ~fin THEN "fits" ELSE IF FHugeExp(x) THEN "grey"
+            ELSE OverRule(ISub(IAdd(x.exp, INat(FDigits(x))), x.prec), TRUE)
   IN R4(P0(x) \/ ov = "over", ~P0(x) /\ ~FInf(x) /\ ov = "fits", (~P0(x) /\ FInf(x)) \/ ov = "grey", FALSE)
 \* base conversion (to_decimal / to_binary): "Panics if the associated context has unlimited precision and the
 \* conversion cannot be performed losslessly"; infinities map to infinities
@@ -340,6 +347,8 @@ Rule(fam, a) ==
     [] fam = "f_round" -> RuleFRound(a, FALSE)
     [] fam = "f_toint" -> RuleFRound(a, TRUE)
     [] fam = "f_ulp" -> RuleFUlp(a)
+    [] fam = "f_withprec" -> RuleFWithPrec(a)
+    [] fam = "f_split" -> RuleFSplit(a)
     [] fam = "f_base" -> RuleFBase(a)
     [] fam = "f_fmt" -> RuleFFmt(a)
     [] fam = "r_parts" -> RuleRParts(a)
